@@ -60,8 +60,12 @@ def main(argv=None) -> int:
 def finish_with_selftest(chk: Checker, t0, seed, a, extra) -> int:
     st = None
     if a.tier == "thorough" and not a.no_selftest and not a.replay:
-        from . import selftest
+        from . import selftest, enginetest
 
+        if enginetest.main() != 0:
+            print(f"ANALYSIS-ERROR property={chk.prop}: engine unit tests failed")
+            return 2
+        extra["engine_tests"] = "passed"
         st = selftest.run_for(chk.prop, repo=a.repo)
         extra["selftest"] = st["summary"]
         extra["selftest_cases"] = st["cases"]
